@@ -52,6 +52,10 @@ class Evaluator:
         if not isinstance(t, tuple) or not t:
             raise Stuck(repr(t))
         k = t[0]
+        if self.extra is not None:
+            r = self.extra(self, t)
+            if r is not NotImplemented:
+                return r
         if k == "const":
             return t[1]
         if k == "param":
@@ -109,8 +113,6 @@ class Evaluator:
                 except Stuck:
                     args.append(None)
             return self.calls(t[1], args, t)
-        if self.extra is not None:
-            return self.extra(self, t)
         raise Stuck("term %s" % k)
 
     def variant(self, t):
@@ -168,3 +170,40 @@ def select_row(outs, evaluator, kinds=("return",)):
         if len(vals) > 1:
             raise Ambiguous(repr(vals))
     return hit[0]
+
+
+class Trie:
+    """rows of one PX run arranged by their (shared) constraint-log prefixes"""
+
+    def __init__(self, outs, kinds=("return",)):
+        self.root = {"children": {}, "rows": []}
+        self.n = 0
+        for o in outs:
+            if o.kind not in kinds:
+                continue
+            node = self.root
+            for ent in o.cons.log:
+                key = (ent[0], ent[1], ent[2])
+                node = node["children"].setdefault(key, {"children": {}, "rows": []})
+            node["rows"].append(o)
+            self.n += 1
+
+    def select(self, ev):
+        """-> list of rows whose constraints the evaluator satisfies"""
+        hits = []
+        stack = [self.root]
+        while stack:
+            node = stack.pop()
+            hits.extend(node["rows"])
+            for (kind, t, v), child in node["children"].items():
+                if kind == "eq":
+                    okk = int(ev.ev(t)) == v
+                elif kind == "notin":
+                    okk = ev.ev(t) not in v
+                elif kind == "variant":
+                    okk = ev.variant(t) == v
+                else:
+                    okk = ev.variant(t) not in v
+                if okk:
+                    stack.append(child)
+        return hits
